@@ -159,7 +159,7 @@ type PairBounds struct {
 
 // QuickPairBounds / ThoroughPairBounds are the two tiers.
 func QuickPairBounds() PairBounds {
-	return PairBounds{Exps: []int{3, 4, 6, 9, 12, 15, 18, 24, 30}, Mantissas: []int64{1}, RatioMax: 4000000}
+	return PairBounds{Exps: []int{3, 4, 6, 9, 12, 18, 24, 30}, Mantissas: []int64{1}, RatioMax: 4000000}
 }
 func ThoroughPairBounds() PairBounds {
 	e := []int{}
@@ -252,9 +252,12 @@ func isqrt(v *big.Int) *big.Int { // Newton on integers, independent of big.Int.
 
 var bound = n(1000) // minimum liquidity locked at creation (the property's constant, not read from the code)
 
-func supplies(r0, r1 *big.Int) []*big.Int {
+func supplies(r0, r1 *big.Int, dense bool) []*big.Int {
 	l := isqrt(mul(r0, r1))
-	vs := []*big.Int{n(1001), quo(l, n(1000)), quo(l, n(2)), sub(l, n(1)), cp(l), add(l, n(1)), muln(l, 10)}
+	vs := []*big.Int{n(1001), quo(l, n(2)), cp(l), add(l, n(1))}
+	if dense {
+		vs = append(vs, quo(l, n(1000)), sub(l, n(1)), muln(l, 10))
+	}
 	return uniqSorted(vs, func(v *big.Int) bool { return v.Cmp(bound) > 0 })
 }
 
@@ -775,7 +778,7 @@ func casesOfPair(a, b *big.Int, reverse bool, dense bool, f func(pcase)) {
 		f(pcase{fn: "buy-exec", reverse: reverse, r0: a, r1: b, amount: x})
 	}
 	ma := mintAmounts(a, dense)
-	for _, s := range supplies(a, b) {
+	for _, s := range supplies(a, b, dense) {
 		for _, x := range ma {
 			f(pcase{fn: "mint-burn", reverse: reverse, r0: a, r1: b, supply: s, amount: x})
 		}
@@ -965,7 +968,7 @@ func RunPairs(b PairBounds, deadline time.Time, workers int) Result {
 		"exponents": b.Exps, "mantissas": b.Mantissas, "ratio_max": b.RatioMax, "dense_amounts": b.Dense, "orientations": 2,
 	}
 	res.Rule = "pair lattice: reserves m·10^k (±1), one ragged value per decade and 2^53, 2^64, 2^100 (±1), all ordered pairs within the ratio bound, both orientations (pair and pair.reverse()); " +
-		"per pair every amount of a fixed list (1 pip … multiples of the reserve, fractions of the reserve ±1, amounts that buy/cost about one unit), for liquidity every supply of {1001, L/1000, L/2, L±1, 10L} (L = isqrt(r0·r1)); " +
+		"per pair every amount of a fixed list (1 pip … multiples of the reserve, fractions of the reserve ±1, amounts that buy/cost about one unit), for liquidity every supply of {1001, L/2, L, L+1} (thorough: also L/1000, L−1, 10L; L = isqrt(r0·r1)); " +
 		"each case calls the real PairV2 methods and is judged with exact big.Int arithmetic. Reserve values, amounts and cases are de-duplicated when generated, so every case is distinct; " +
 		"a case is non-trivial when the real code returned a defined result (not nil / refused), which is what distinct_nontrivial counts; one evaluation = one call of a real method"
 	return res
